@@ -735,6 +735,8 @@ class ParametersVisitor(LoggerProperty, ast.NodeVisitor):
         node = self.component_node.args
         arg_nodes = getattr(node, "posonlyargs", []) + node.args
         default_nodes = [None] * (len(arg_nodes) - len(node.defaults)) + node.defaults
+        arg_nodes = arg_nodes + node.kwonlyargs
+        default_nodes = default_nodes + node.kw_defaults
         default_nodes = [d for n, d in enumerate(default_nodes) if arg_nodes[n].arg in param_names]
         return default_nodes
 
